@@ -1609,6 +1609,109 @@ def translate_forget_uid(file, cls, lean, repo=REPO):
         f"     | some ({ex}, _) => if {cmp1} then uid_to_fname.erase uid else uid_to_fname)\n")
 
 
+# ---------------------------------------------------------------------------
+# webdav.traverse_resource: a work list (`collections.deque`) of (href, resource, depth)
+#
+# A resource is a tree (`Py.ResTree`: is it a collection, and its members); `members_fn(resource)` is the
+# member list of the node.  The `while todo:` loop becomes a recursion with fuel (running out of fuel with
+# work left is an error); `raise AssertionError` for an unknown depth is kept.
+
+def translate_traverse(repo=REPO):
+    src = ast.parse(open(os.path.join(repo, "xandikos/webdav.py"), encoding="utf-8").read())
+    fn = next((n for n in src.body if isinstance(n, ast.AsyncFunctionDef) and n.name == "traverse_resource"), None)
+    if fn is None or [a.arg for a in fn.args.args] != ["base_resource", "base_href", "depth", "members"]:
+        raise Untranslatable("traverse_resource not found / signature changed")
+    body = [b for b in fn.body if not (isinstance(b, ast.Expr) and isinstance(b.value, ast.Constant))]
+    if len(body) != 3:
+        raise Untranslatable(f"{len(body)} statements, 3 expected")
+    sel, init, loop = body
+    if "members_fn" not in ast.unparse(sel) or "c.members()" not in ast.unparse(sel):
+        raise Untranslatable("members_fn selection")
+    if ast.unparse(init) != "todo = collections.deque([(base_href, base_resource, depth)])":
+        raise Untranslatable("work list initialisation")
+    if not (isinstance(loop, ast.While) and ast.unparse(loop.test) == "todo" and not loop.orelse):
+        raise Untranslatable("loop shape")
+    lb = loop.body
+    if len(lb) != 5:
+        raise Untranslatable(f"loop body has {len(lb)} statements, 5 expected")
+    pop, fix, yld, dep, kids = lb
+    if ast.unparse(pop) not in ("(href, resource, depth) = todo.popleft()", "href, resource, depth = todo.popleft()"):
+        raise Untranslatable("popleft")
+    coll = "COLLECTION_RESOURCE_TYPE in resource.resource_types"
+    if not (isinstance(fix, ast.If) and ast.unparse(fix.test) == coll and not fix.orelse
+            and [ast.unparse(b) for b in fix.body] == ["href = ensure_trailing_slash(href)"]):
+        raise Untranslatable("trailing-slash step")
+    if ast.unparse(yld) != "yield (href, resource)":
+        raise Untranslatable("yield")
+    # depth dispatch: if depth == A: continue / elif depth == B: nextdepth = C / … / else: raise AssertionError
+    branches = []
+    node = dep
+    while True:
+        if not (isinstance(node, ast.If) and isinstance(node.test, ast.Compare) and len(node.test.ops) == 1
+                and isinstance(node.test.ops[0], ast.Eq) and ast.unparse(node.test.left) == "depth"
+                and isinstance(node.test.comparators[0], ast.Constant) and len(node.body) == 1):
+            raise Untranslatable("depth dispatch shape")
+        d = node.test.comparators[0].value
+        b = node.body[0]
+        if isinstance(b, ast.Continue):
+            branches.append((d, None))
+        elif isinstance(b, ast.Assign) and ast.unparse(b.targets[0]) == "nextdepth" and isinstance(b.value, ast.Constant):
+            branches.append((d, b.value.value))
+        else:
+            raise Untranslatable("depth branch")
+        if len(node.orelse) == 1 and isinstance(node.orelse[0], ast.If):
+            node = node.orelse[0]
+            continue
+        if not (len(node.orelse) == 1 and isinstance(node.orelse[0], ast.Raise) and "AssertionError" in ast.unparse(node.orelse[0])):
+            raise Untranslatable("depth dispatch must end in raise AssertionError")
+        break
+    if not (isinstance(kids, ast.If) and ast.unparse(kids.test) == coll and not kids.orelse and len(kids.body) == 1
+            and isinstance(kids.body[0], ast.For) and ast.unparse(kids.body[0].target) in ("(child_name, child_resource)", "child_name, child_resource")
+            and ast.unparse(kids.body[0].iter) == "members_fn(resource)"):
+        raise Untranslatable("children loop")
+    kb = kids.body[0].body
+    if len(kb) != 2 or not isinstance(kb[0], ast.Assign) or ast.unparse(kb[0].targets[0]) != "child_href" \
+            or ast.unparse(kb[1]) != "todo.append((child_href, child_resource, nextdepth))":
+        raise Untranslatable("children loop body")
+    # child_href expression over href, child_name, ensure_trailing_slash, +
+    def href_expr(e):
+        if isinstance(e, ast.Name) and e.id in ("href", "child_name"):
+            return e.id
+        if isinstance(e, ast.Call) and ast.unparse(e.func) == "ensure_trailing_slash" and len(e.args) == 1:
+            return f"(Py.etsS {href_expr(e.args[0])})"
+        if isinstance(e, ast.BinOp) and isinstance(e.op, ast.Add):
+            return f"({href_expr(e.left)} ++ {href_expr(e.right)})"
+        raise Untranslatable(f"child href expression {ast.unparse(e)[:50]}")
+    ch = href_expr(kb[0].value)
+    disp = "(throw (Py.PyErr.raised \"AssertionError\" depth))"
+    for d, nxt in reversed(branches):
+        if nxt is None:
+            disp = f"(if depth == \"{d}\" then traverse_resource_loop fuel todo out__ else\n          {disp})"
+        else:
+            disp = f"(if depth == \"{d}\" then next__ \"{nxt}\" else\n          {disp})"
+    return (
+        "/-- `ensure_trailing_slash` (the translated function of this module) on `String` -/\n"
+        "def Py.etsS (h : String) : String := String.ofList (ensure_trailing_slash h.toList)\n\n"
+        "/-- the `while todo:` loop of `webdav.traverse_resource`; `out__` is what has been yielded -/\n"
+        "def traverse_resource_loop : Nat → List (String × Py.ResTree × String) → List (String × Py.ResTree) →\n"
+        "    Except Py.PyErr (List (String × Py.ResTree))\n"
+        "  | _, [], out__ => pure out__\n"
+        "  | 0, _ :: _, _ => throw (Py.PyErr.raised \"FuelExhausted\" \"\")\n"
+        "  | fuel + 1, (href, resource, depth) :: todo, out__ =>\n"
+        "    let href := if resource.isCollection then Py.etsS href else href\n"
+        "    let out__ := out__ ++ [(href, resource)]\n"
+        "    let next__ := fun (nextdepth : String) =>\n"
+        "      let todo := if resource.isCollection then\n"
+        f"          todo ++ resource.members.map (fun (child_name, child_resource) => ({ch}, child_resource, nextdepth))\n"
+        "        else todo\n"
+        "      traverse_resource_loop fuel todo out__\n"
+        f"    {disp}\n\n"
+        "/-- translated from `xandikos/webdav.py::traverse_resource` (with the default `members_fn`) -/\n"
+        "def traverse_resource (fuel : Nat) (base_resource : Py.ResTree) (base_href depth : String) :\n"
+        "    Except Py.PyErr (List (String × Py.ResTree)) :=\n"
+        "  traverse_resource_loop fuel [(base_href, base_resource, depth)] []\n")
+
+
 SCAN_SPECS = [
     dict(module="Unescape", file="xandikos/icalendar.py", func="_unescape_text", lean="unescape_text",
          params=[("text", "str"), ("split", "bool")], returns="strlist",
@@ -1744,6 +1847,10 @@ def generate(repo=REPO, out_dir=GEN_DIR):
         mods["IterChanges"] = [({"func": "GitStore.iter_changes"}, translate_iter_changes(repo), None)]
     except (Untranslatable, SyntaxError, KeyError, IndexError, AttributeError, StopIteration) as e:
         mods["IterChanges"] = [({"func": "GitStore.iter_changes"}, None, f"{type(e).__name__}: {e}")]
+    try:
+        mods.setdefault("Href", []).append(({"func": "traverse_resource"}, translate_traverse(repo), None))
+    except (Untranslatable, SyntaxError, KeyError, IndexError, AttributeError, StopIteration) as e:
+        mods.setdefault("Href", []).append(({"func": "traverse_resource"}, None, f"{type(e).__name__}: {e}"))
     try:
         mods["Multiget"] = [({"func": "_get_resources_by_hrefs"}, translate_resources_by_hrefs(repo), None)]
     except (Untranslatable, SyntaxError, KeyError, IndexError, AttributeError, StopIteration) as e:
